@@ -653,12 +653,19 @@ def c08(tier, replay=None):
     # left for a whole read and is compacted while the token is still being looked at (CIF 2.0 looks one character ahead,
     # for the colon of a table key); the padding in front is comment
     LATE = [("text field", "\n;hello world\n;", "hello world", 1), ("triple-quoted", " \'\'\'hello world\'\'\'", "hello world", 1),
-            ("triple-double-quoted", ' """hello\nworld"""', "hello\nworld", 1), ("quoted", " 'hello world'", "hello world", 1), ("bare", " hello_world", "hello_world", 0)]
+            ("triple-double-quoted", ' """hello\nworld"""', "hello\nworld", 1), ("quoted", " 'hello world'", "hello world", 1), ("bare", " hello_world", "hello_world", 0),
+            # table keys: what follows the closing delimiter (the colon) decides what the token is
+            ("table key, triple-quoted", ' {"""k"""', None, ":v}"), ("table key, triple-apostrophe", " {\'\'\'k\'\'\'", None, ":v}"), ("table key, quoted", " {'k'", None, ":v}"),
+            ("list member, triple-quoted", ' ["""k"""', None, " v]")]
     centres = (4096, 131072) if tier == "quick" else (4096, 8192, 126976, 131072, 131200, 135168, 262144)
     for centre in centres:
         for D in range(centre - 2, centre + 3):
             for what, tok, val, q in LATE:
-                for magic in (("#\\#CIF_2.0\n",) if tier == "quick" and what in ("quoted", "bare") else ("#\\#CIF_2.0\n", "")):
+                post = ""
+                if val is None:
+                    post, q = q, 1
+                    val = {"k": "table", "e": [["k", {"k": "char", "t": "v", "q": 0}]]} if what.startswith("table") else {"k": "list", "e": [{"k": "char", "t": "k", "q": 1}, {"k": "char", "t": "v", "q": 0}]}
+                for magic in (("#\\#CIF_2.0\n",) if (tier == "quick" and what in ("quoted", "bare")) or post else ("#\\#CIF_2.0\n", "")):
                     if not magic and what.startswith("triple"):
                         continue
                     fixed = magic + "data_b\n_n1" + tok
@@ -667,7 +674,7 @@ def c08(tier, replay=None):
                     while left > 0:
                         ln = min(left, 1500)
                         pad.append(("#%d " % k + "c" * ln)[:ln - 1] + "\n" if ln > 1 else "\n"); left -= ln; k += 1
-                    doc = magic + "".join(pad) + "data_b\n_n1" + tok + "\n_n2 'after'\n"
+                    doc = magic + "".join(pad) + "data_b\n_n1" + tok + post + "\n_n2 'after'\n"
                     assert len(magic + "".join(pad) + "data_b\n_n1" + tok) == D
                     jobs.append((doc, len(meta))); meta.append((-1, "lf", 0, ("late", D, (what + (" (CIF 1.1)" if not magic else ""), val, q))))
     nok = total = 0
@@ -708,7 +715,7 @@ def c08(tier, replay=None):
             late = None
             if kind_ == "late":
                 late, body, q_ = body
-            exp = {"b": {"items": {"_n1": {"k": "char", "t": body, "q": 1 if late is None else q_}, "_n2": {"k": "char", "t": "after", "q": 1}}, "loops": [], "frames": {}}}
+            exp = {"b": {"items": {"_n1": body if isinstance(body, dict) else {"k": "char", "t": body, "q": 1 if late is None else q_}, "_n2": {"k": "char", "t": "after", "q": 1}}, "loops": [], "frames": {}}}
             if late is not None and got != exp:
                 problems.append("%s ending at character %d of the file read as %s, not %s" % (late, n, json.dumps(((got or {}).get("b", {}).get("items", {}) or {}).get("_n1"))[:120], json.dumps(exp["b"]["items"]["_n1"])))
             elif got != exp:
